@@ -237,6 +237,11 @@ def run(repo, rep, tier):
                 return (True, None)
             return None
         env = dict(proto)
+        for cn_ in ('KexDH', 'KexGroupExchange'):
+            for k_, v_ in _hk.class_consts(repo, _CE3(repo), 'kexdh', cn_).items():
+                env[k_] = v_
+                env['self.' + k_.split('.', 1)[1]] = v_
+                env['cls.' + k_.split('.', 1)[1]] = v_
         env.update({'self': _Opq(), 's': _Opq()})
         env.update(dict(zip(sgp[2:], rng)))
         try:
